@@ -31,9 +31,10 @@ Inductive stmt :=
 | SDel (t : table) (k : vexp)                        (* del self._T[k] *)
 | SDelAttr (t : table) (k : vexp)                    (* del self._T_attr[k] *)
 | SUid (k : vexp)                                    (* update_uid_counter(self, k) *)
+| SAttrUpdate (t : table) (k : vexp)                 (* self._T_attr[k].update(attr), attr = the **attr of the call *)
 | SForCopy (t : table) (k : vexp) (body : list stmt). (* for <loop> in self._T[k].copy(): body *)
 
-Record env := mkEnv { e_args : list lbl; e_flags : list bool; e_loop : lbl }.
+Record env := mkEnv { e_args : list lbl; e_flags : list bool; e_loop : lbl; e_attr : attrs }.
 Definition veval (v : vexp) (en : env) : lbl :=
   match v with VArg i => nth i (e_args en) LNone | VLoop => e_loop en end.
 Definition tab (t : table) (s : hg) : odict (list lbl) := match t with TNode => h_node s | TEdge => h_edge s end.
@@ -85,6 +86,10 @@ Fixpoint exec (p : stmt) (en : env) (s : hg) {struct p} : hg * outcome :=
   | SDel t k => if has (veval k en) (tab t s) then (set_tab t s (del (veval k en) (tab t s)), Ok) else (s, Raised IDNotFound)
   | SDelAttr t k => if has (veval k en) (atab t s) then (set_atab t s (del (veval k en) (atab t s)), Ok) else (s, Raised IDNotFound)
   | SUid k => (bump_uid (veval k en) s, Ok)
+  | SAttrUpdate t k => match get (veval k en) (atab t s) with
+                       | Some d => (set_atab t s (set (veval k en) (aupdate d (e_attr en)) (atab t s)), Ok)
+                       | None => (s, Raised IDNotFound)
+                       end
   | SForCopy t k body =>
       match get (veval k en) (tab t s) with
       | None => (s, Raised IDNotFound)
@@ -95,7 +100,7 @@ Fixpoint exec (p : stmt) (en : env) (s : hg) {struct p} : hg * outcome :=
              | x :: r =>
                  match (fix go (l : list stmt) (s : hg) : hg * outcome :=
                           match l with [] => (s, Ok)
-                          | q :: r' => match exec q (mkEnv (e_args en) (e_flags en) x) s with (s', Ok) => go r' s' | y => y end end) body s with
+                          | q :: r' => match exec q (mkEnv (e_args en) (e_flags en) x (e_attr en)) s with (s', Ok) => go r' s' | y => y end end) body s with
                  | (s', Ok) => iter r s'
                  | y => y
                  end
@@ -106,5 +111,7 @@ Fixpoint exec (p : stmt) (en : env) (s : hg) {struct p} : hg * outcome :=
 Fixpoint exec_list (l : list stmt) (en : env) (s : hg) : hg * outcome :=
   match l with [] => (s, Ok) | q :: r => match exec q en s with (s', Ok) => exec_list r en s' | x => x end end.
 
+Definition run_method_a (body : list stmt) (args : list lbl) (flags : list bool) (a : attrs) (s : hg) : res :=
+  match exec_list body (mkEnv args flags LNone a) s with (s', o) => (s', o, O) end.
 Definition run_method (body : list stmt) (args : list lbl) (flags : list bool) (s : hg) : res :=
-  match exec_list body (mkEnv args flags LNone) s with (s', o) => (s', o, O) end.
+  run_method_a body args flags [] s.
